@@ -84,6 +84,9 @@ class X12Path(object):
                 if m.group('subele_idx') is not None:
                     self.subele_idx = int(m.group('subele_idx'))
                 del self.loop_list[-1]
+                if self.ele_idx == 0 or self.subele_idx == 0:
+                    # elements are numbered from 01, components from 1
+                    raise X12PathError('Path "%s" is invalid. There is no element 00 and no component 0' % (path_str))
                 if self.seg_id is None and self.id_val is not None:
                     raise X12PathError('Path "%s" is invalid. Must specify a segment identifier with a qualifier' % (path_str))
                 if self.seg_id is None and (self.ele_idx is not None or self.subele_idx is not None) and len(self.loop_list) > 0:
